@@ -229,6 +229,12 @@ func (c *Ctl) snapshot() (allSettled bool, blocked map[int64]bool) {
 	}
 	buf := c.buf
 	n := runtime.Stack(buf, true)
+	// a truncated dump may lack the controlled goroutines (they would then never count as settled)
+	for n == len(buf) && len(buf) < 1<<26 {
+		c.buf = make([]byte, 2*len(buf))
+		buf = c.buf
+		n = runtime.Stack(buf, true)
+	}
 	states := map[int64]string{}
 	for _, m := range hdrRe.FindAllSubmatch(buf[:n], -1) {
 		id, _ := strconv.ParseInt(string(m[1]), 10, 64)
